@@ -125,6 +125,64 @@ func (sc *scriptConn) ChanQueueSubscribe(subject, queue string, ch chan *nats.Ms
 }
 func (sc *scriptConn) Close() {}
 
+// burstConn delivers like a NATS channel subscription: every message is offered with
+// a non-blocking send and dropped when the channel cannot take it. All its messages
+// are already there when PublishRequest returns (the replies were faster than the
+// requesting goroutine), so nothing is waiting on the inbox yet.
+type burstConn struct {
+	ch      chan *nats.Msg
+	msgs    []string
+	dropped int
+}
+
+func (bc *burstConn) Publish(subject string, payload []byte) error { return nil }
+func (bc *burstConn) PublishRequest(subject, reply string, data []byte) error {
+	for _, m := range bc.msgs {
+		select {
+		case bc.ch <- &nats.Msg{Subject: reply, Data: []byte(m)}:
+		default:
+			bc.dropped++
+		}
+	}
+	return nil
+}
+func (bc *burstConn) ChanSubscribe(subject string, ch chan *nats.Msg) (*nats.Subscription, error) {
+	bc.ch = ch
+	return &nats.Subscription{Subject: subject}, nil
+}
+func (bc *burstConn) ChanQueueSubscribe(subject, queue string, ch chan *nats.Msg) (*nats.Subscription, error) {
+	return bc.ChanSubscribe(subject, ch)
+}
+func (bc *burstConn) Close() {}
+
+// c19Bursts: one or two pre-responses and the response arrive before SendRequest
+// waits on its inbox; the response is still the one returned.
+func c19Bursts(c *core.Ctx) {
+	for k := 1; k <= 2; k++ {
+		for _, resp := range []string{`{"result":"pong"}`, `{"error":{"code":"custom.err","message":"Custom"}}`} {
+			bc := &burstConn{}
+			for i := 0; i < k; i++ {
+				bc.msgs = append(bc.msgs, `timeout:"150"`)
+			}
+			bc.msgs = append(bc.msgs, resp)
+			var exts []time.Duration
+			t0 := time.Now()
+			r := resprot.SendRequest(bc, "call.svc.x.do", nil, 60*time.Millisecond, func(d time.Duration) { exts = append(exts, d) })
+			elapsed := time.Since(t0)
+			c.Eval(1)
+			c.Obs("burst_cases", 1)
+			desc := map[string]interface{}{"messages_delivered_before_the_inbox_is_read": bc.msgs, "dropped_by_the_connection": bc.dropped, "returned": jsonStr(r), "elapsed_ms": elapsed.Milliseconds(), "extension_callbacks": len(exts)}
+			want := resprot.ParseResponse([]byte(resp))
+			if jsonStr(r) != jsonStr(want) {
+				c.Violation("C19/burst-response-lost", fmt.Sprintf("%d pre-response(s) and the response were delivered before SendRequest read its inbox (non-blocking delivery as on a NATS channel subscription, %d dropped): it returned %s after %v instead of the response", k, bc.dropped, jsonStr(r), elapsed), desc)
+			} else if len(exts) != k {
+				c.Violation("C19/extension-callbacks", fmt.Sprintf("%d pre-responses in a burst notified the extension callbacks %d times", k, len(exts)), desc)
+			}
+			c.Distinct(fmt.Sprintf("burst/%d/%s", k, resp))
+		}
+	}
+}
+
 var c19Responses = []struct{ kind, payload string }{
 	{"result", `{"result":{"a":1}}`}, {"result-null", `{"result":null}`}, {"resource", `{"resource":{"rid":"svc.x"}}`},
 	{"error", `{"error":{"code":"custom.err","message":"Custom"}}`}, {"invalid-json", `{"result":`}, {"empty", ``}, {"no-member", `{}`}, {"number", `42`},
@@ -332,6 +390,7 @@ var c19ConnErrors = []error{
 }
 
 func c19Faults(c *core.Ctx, p c19Params) {
+	c19Bursts(c)
 	for i := 0; i < p.N; i++ {
 		kind := []string{"marshal", "subscribe", "publish"}[i%3]
 		sc := &scriptConn{done: make(chan struct{}), returned: make(chan struct{})}
@@ -397,6 +456,16 @@ func c19Nats(c *core.Ctx, p c19Params) {
 		time.Sleep(400 * time.Millisecond)
 		r.OK(nil)
 	}), res.GetModel(func(r res.ModelRequest) { r.Model(map[string]int{"a": 1}) }))
+	// a resource of its own (own worker group, never queued behind the slow handlers)
+	svc.Handle("quick", res.Call("burst", func(r res.CallRequest) {
+		// the response follows the pre-response while the client is still busy with its
+		// extension callback (40 ms). The 5 ms gap keeps the case deterministic on a loaded
+		// machine: with both messages in flight before the client waits on its inbox, the
+		// one-slot inbox buffer could legitimately overflow.
+		r.Timeout(300 * time.Millisecond)
+		time.Sleep(5 * time.Millisecond)
+		r.OK("pong")
+	}))
 	svc.SetWorkerCount(8)
 	served := make(chan struct{})
 	svc.SetOnServe(func(*res.Service) { close(served) })
@@ -428,7 +497,21 @@ func c19Nats(c *core.Ctx, p c19Params) {
 	}
 	for i := 0; i < p.N; i++ {
 		c.Eval(1)
-		switch i % 6 {
+		switch i % 7 {
+		case 6: // the response arrives right behind a pre-response, while the extension callback is still running
+			var exts []time.Duration
+			t0 := time.Now()
+			r := resprot.SendRequest(cl, "call.svc.quick.burst", nil, 200*time.Millisecond, func(d time.Duration) {
+				exts = append(exts, d)
+				time.Sleep(40 * time.Millisecond)
+			})
+			var pong string
+			if err := r.ParseResult(&pong); err != nil || pong != "pong" {
+				c.Violation("C19/e2e-response-behind-pre-response", fmt.Sprintf("handler sent a 300 ms pre-response and, 5 ms later, the response (client busy in its extension callback): SendRequest returned %s after %v", jsonStr(r), time.Since(t0)), nil)
+			} else if len(exts) != 1 || exts[0] != 300*time.Millisecond {
+				c.Violation("C19/e2e-extension-callback", fmt.Sprintf("extension callbacks %v, want [300ms]", exts), nil)
+			}
+			check("response-behind-pre-response")
 		case 0: // response
 			r := resprot.SendRequest(cl, "call.svc.slow.fast", nil, time.Second)
 			var n int
